@@ -277,7 +277,7 @@ def plant_corrupted(groups):
             k = next(i for i, l in enumerate(cp) if l["done"])
             for l in cp[min(k + 1, len(cp) - 2):]:
                 l["fin"] = 2
-            groups[0].extend(cp)
+            groups[0][0:0] = cp          # first: the judge keeps at most MaxBad violations per run
             planted.add("selftest-c18")
             break
     # C19: the first retry callback reported one tick late
@@ -290,7 +290,7 @@ def plant_corrupted(groups):
             cp[k]["cb"], cp[k]["parked"] = 0, False           # ... not at its tick
             del cp[k + 1]                                       # (its release line)
             cp[k + 1]["cb"] = max(cp[k + 1]["cb"], 1)           # ... but one tick later
-            groups[0].extend(cp)
+            groups[0][0:0] = cp          # first: the judge keeps at most MaxBad violations per run
             planted.add("selftest-c19")
             break
     return planted
